@@ -742,11 +742,14 @@ func (in *inliner) processStmt(s ast.Stmt, stack []*types.Func, sites []token.Po
 			if call, ok := ast.Unparen(x.Rhs[0]).(*ast.CallExpr); ok && len(x.Lhs) > 1 {
 				// a, b := h(...)
 				var temps []ast.Expr
-				if st := in.inlineCall(call, stack, sites, &temps); st != nil && len(temps) == len(x.Lhs) {
-					x.Rhs = temps
-					return append(st, x)
+				if fn, _ := in.calleeOfCall(call); fn != nil {
+					if st := in.inlineCall(call, stack, sites, &temps); st != nil && len(temps) == len(x.Lhs) {
+						x.Rhs = temps
+						return append(st, x)
+					}
+					return []ast.Stmt{x}
 				}
-				return []ast.Stmt{x}
+				// not an inlinable call itself: its arguments may still hold inlinable calls (handled below)
 			}
 		}
 		var pre []ast.Stmt
@@ -1104,6 +1107,58 @@ func (in *inliner) hoist(e *ast.Expr, stack []*types.Func, sites []token.Pos) []
 			preImpure := impure
 			if se, ok := x.Fun.(*ast.SelectorExpr); ok {
 				walk(&se.X, cond)
+			}
+			// f(g(), h(x)) with h inlinable and g() impure: g() is evaluated into a temporary first, so that hoisting h
+			// in front of the call does not reorder the two
+			if !cond && !impure {
+				last := -1
+				for i, a := range x.Args {
+					if in.containsInlinable(a, stack) {
+						last = i
+					}
+				}
+				for i := 0; i < last; i++ {
+					a := x.Args[i]
+					if in.pureExpr(a) || in.containsInlinable(a, stack) {
+						continue
+					}
+					oa, _ := in.origOf(a).(ast.Expr)
+					if oa == nil {
+						break
+					}
+					t := in.pk.TypesInfo.TypeOf(oa)
+					if t == nil {
+						break
+					}
+					if _, isTuple := t.(*types.Tuple); isTuple {
+						break
+					}
+					if b, ok := t.(*types.Basic); ok && b.Info()&types.IsUntyped != 0 {
+						t = types.Default(t)
+					}
+					ts := types.TypeString(t, func(p *types.Package) string {
+						if p == in.pk.Types {
+							return ""
+						}
+						for _, im := range in.file.Imports {
+							if strings.Trim(im.Path.Value, `"`) == p.Path() {
+								if im.Name != nil {
+									return im.Name.Name
+								}
+								return p.Name()
+							}
+						}
+						return "\x00"
+					})
+					if strings.Contains(ts, "\x00") {
+						break
+					}
+					in.n++
+					tn := fmt.Sprintf("arg_i%d", in.n)
+					pre = append(pre, &ast.DeclStmt{Decl: &ast.GenDecl{Tok: token.VAR, Specs: []ast.Spec{&ast.ValueSpec{Names: []*ast.Ident{ast.NewIdent(tn)}, Type: ast.NewIdent(ts), Values: []ast.Expr{a}}}}})
+					x.Args[i] = ast.NewIdent(tn)
+					in.changed = true
+				}
 			}
 			walkList(x.Args, cond)
 			fn, fd := in.calleeOfCall(x)
